@@ -27,6 +27,7 @@ EPS = np.finfo(float).eps
 
 ITER_KINDS = ("S-maxiter", "S-breakdown", "S-adversarial", "S-persistent", "F-solver-raise")
 DIRECT_KINDS = ("S-singular", "F-solver-raise")
+LAPACK_KINDS = ("S-lapack-info", "F-solver-raise")
 
 
 # =========================================================================== generate
@@ -70,6 +71,12 @@ def generate(rng, repo_root, config, tier="quick", opts=None):
         scn["iters"] = rng.choice([1, 1, 2, 3])
         scn["sweep_all_positions"] = bool(tier == "thorough" and rng.random() < 0.25)
     return scn
+
+
+def generate_from_rng(rng, repo_root, tier="thorough", opts=None):
+    opts = dict(opts or {})
+    opts.setdefault("cell_budget", 6000)  # hypothesis sessions are single-threaded: keep examples small
+    return generate(rng, repo_root, "B" if rng.random() < 0.5 else "A", "quick", opts)
 
 
 def scenario_for(k, batch_seed, tier, repo_root, opts=None):
@@ -253,7 +260,7 @@ def execute(ns, scn):
     site = _site(base.records[0]) if nrec else f"reservoir.py:{cls}.simulate"
     st["iterative_calls"] += sum(1 for r in base.records if r["kind"] == "iterative")
     st["direct_calls"] += sum(1 for r in base.records if r["kind"] == "direct")
-    nat = [r for r in base.records if r["kind"] == "iterative" and r["info"] not in (0, None)]
+    nat = [r for r in base.records if r["kind"] in ("iterative", "lapack") and r["info"] not in (0, None)]
     st["natural_info_nonzero"] += len(nat)
     out.log.append(("base", cls, scn["object"]["nx"], len(scn["grid"]["t"]), base.raised, nrec, solver,
                     None if base.pp is None else _d(base.pp)))
@@ -291,7 +298,7 @@ def execute(ns, scn):
     if nrec == 0:
         return out
     # ------------------------------------------------------------------ fault enumeration
-    kinds = ITER_KINDS if skind == "iterative" else DIRECT_KINDS
+    kinds = ITER_KINDS if skind == "iterative" else LAPACK_KINDS if skind == "lapack" else DIRECT_KINDS
     if scn.get("sweep_all_positions"):
         positions = list(range(nrec))
     else:
